@@ -2,14 +2,12 @@ package main
 
 import (
 	"fmt"
+	"os"
 	"math/big"
-	"sort"
 	"strings"
 
 	"github.com/NethermindEth/juno/core/crypto"
 	"github.com/NethermindEth/juno/core/felt"
-	"github.com/NethermindEth/juno/core/trie"
-	"github.com/NethermindEth/juno/core/trie2"
 	"verifharness/hx"
 )
 
@@ -129,234 +127,6 @@ func evalSynth(c *hx.Ctx, or *hx.Oracle, sc synthCase) {
 	}
 }
 
-// ---------- range proofs (differential; the reconstruction is not modelled) ----------
-type rangeCase struct {
-	Trie   trieCase `json:"trie"`
-	First  string   `json:"first"`
-	Keys   []string `json:"keys"`
-	Values []string `json:"values"`
-	Tamper string   `json:"tamper"`
-}
-
-func felts(hs []string) []*felt.Felt {
-	res := make([]*felt.Felt, len(hs))
-	for i, h := range hs {
-		f := hexF(h)
-		res[i] = &f
-	}
-	return res
-}
-
-func rangeVerify2(root, first felt.Felt, keys, vals []string, ps *trie2.ProofNodeSet) (out string) {
-	defer func() {
-		if r := recover(); r != nil {
-			out = fmt.Sprintf("panic %v", r)
-		}
-	}()
-	more, err := trie2.VerifyRangeProof(&root, &first, felts(keys), felts(vals), ps)
-	if err != nil {
-		return "err"
-	}
-	return fmt.Sprintf("ok more=%v", more)
-}
-func rangeVerify1(root, first felt.Felt, keys, vals []string, ps *trie.ProofNodeSet) (out string) {
-	defer func() {
-		if r := recover(); r != nil {
-			out = fmt.Sprintf("panic %v", r)
-		}
-	}()
-	more, err := trie.VerifyRangeProof(&root, &first, felts(keys), felts(vals), ps)
-	if err != nil {
-		return "err"
-	}
-	return fmt.Sprintf("ok more=%v", more)
-}
-
-func evalRange(c *hx.Ctx, r *hx.RNG, tc trieCase) {
-	if tc.Height != 251 || tc.Hash != "ped" {
-		return
-	}
-	b, err := buildTries(tc)
-	if err != nil {
-		return
-	}
-	content := map[string]string{}
-	for _, o := range tc.Ops {
-		f := strings.Split(o, ":")
-		if f[1] == "0" {
-			delete(content, f[0])
-		} else {
-			content[f[0]] = f[1]
-		}
-	}
-	if len(content) < 2 {
-		return
-	}
-	type kvp struct {
-		k *big.Int
-		v string
-	}
-	var all []kvp
-	for k, v := range content {
-		all = append(all, kvp{hexFbig(k), v})
-	}
-	sort.Slice(all, func(i, j int) bool { return all[i].k.Cmp(all[j].k) < 0 })
-	i := r.Intn(len(all) - 1)
-	j := i + 1 + r.Intn(len(all)-i-1)
-	var keys, vals []string
-	for _, e := range all[i : j+1] {
-		keys = append(keys, e.k.Text(16))
-		vals = append(vals, e.v)
-	}
-	first, last := hexF(keys[0]), hexF(keys[len(keys)-1])
-	wantMore := j < len(all)-1
-	p2 := trie2.NewProofNodeSet()
-	if err := b.t2.GetRangeProof(&first, &last, p2); err != nil {
-		c.Violation("trie2:range-proof-error", err.Error(), tc, false)
-		return
-	}
-	p1 := trie.NewProofNodeSet()
-	if err := b.t1.GetRangeProof(&first, &last, p1); err != nil {
-		c.Violation("legacy:range-proof-error", err.Error(), tc, false)
-		return
-	}
-	want := fmt.Sprintf("ok more=%v", wantMore)
-	c.Count("range|"+strings.Join(tc.Ops, ",")+"|"+keys[0]+"|"+keys[len(keys)-1], true)
-	c.Hist[fmt.Sprintf("range:honest:len=%d", min(len(keys), 6))]++
-	honestClass := func(impl, g string) string {
-		if strings.HasPrefix(g, "panic") {
-			return impl + ":honest-range-proof-panics"
-		}
-		if strings.HasPrefix(g, "ok") {
-			return impl + ":honest-range-proof-wrong-more-flag" // verified, but "more elements to the right" is wrong
-		}
-		return impl + ":honest-range-proof-not-verified"
-	}
-	if g := rangeVerify2(b.root, first, keys, vals, p2); g != want {
-		c.Violation(honestClass("trie2", g), fmt.Sprintf("root %s range [%s..%s] of %d entries: %s want %s", fhex(&b.root), keys[0], keys[len(keys)-1], len(all), g, want), rangeCase{tc, keys[0], keys, vals, ""}, false)
-	}
-	if g := rangeVerify1(b.root, first, keys, vals, p1); g != want {
-		c.Violation(honestClass("legacy", g), fmt.Sprintf("root %s range [%s..%s] of %d entries: %s want %s", fhex(&b.root), keys[0], keys[len(keys)-1], len(all), g, want), rangeCase{tc, keys[0], keys, vals, ""}, false)
-	}
-	// altered ranges: a changed value, an omitted inner element, an inserted element
-	type alt struct {
-		name       string
-		keys, vals []string
-	}
-	var alts []alt
-	x := r.Intn(len(keys))
-	v2 := append([]string{}, vals...)
-	v2[x] = incHex(vals[x])
-	alts = append(alts, alt{"value-changed", keys, v2})
-	if len(keys) >= 3 {
-		m := 1 + r.Intn(len(keys)-2)
-		alts = append(alts, alt{"inner-element-omitted",
-			append(append([]string{}, keys[:m]...), keys[m+1:]...), append(append([]string{}, vals[:m]...), vals[m+1:]...)})
-	}
-	{
-		// an element that is not in the trie, between two neighbours
-		m := r.Intn(len(keys) - 1)
-		a, bb := hexFbig(keys[m]), hexFbig(keys[m+1])
-		mid := new(big.Int).Add(a, bb)
-		mid.Rsh(mid, 1)
-		if mid.Cmp(a) > 0 && mid.Cmp(bb) < 0 {
-			ks := append(append(append([]string{}, keys[:m+1]...), mid.Text(16)), keys[m+1:]...)
-			vs := append(append(append([]string{}, vals[:m+1]...), "7"), vals[m+1:]...)
-			alts = append(alts, alt{"element-inserted", ks, vs})
-		}
-	}
-	for _, a := range alts {
-		c.Evaluations++
-		c.Hist["range:altered:"+a.name]++
-		p2 := trie2.NewProofNodeSet()
-		b.t2.GetRangeProof(&first, &last, p2)
-		if g := rangeVerify2(b.root, first, a.keys, a.vals, p2); strings.HasPrefix(g, "ok") {
-			c.Violation("trie2:range-forged:"+a.name, "altered range accepted: "+g, rangeCase{tc, keys[0], a.keys, a.vals, a.name}, false)
-		}
-		p1 := trie.NewProofNodeSet()
-		b.t1.GetRangeProof(&first, &last, p1)
-		if g := rangeVerify1(b.root, first, a.keys, a.vals, p1); strings.HasPrefix(g, "ok") {
-			c.Violation("legacy:range-forged:"+a.name, "altered range accepted: "+g, rangeCase{tc, keys[0], a.keys, a.vals, a.name}, false)
-		}
-	}
-}
-
-// replayRange re-runs one stored (possibly altered) range against the proof of its end points
-func replayRange(c *hx.Ctx, rc rangeCase, verbose bool) {
-	b, err := buildTries(rc.Trie)
-	hx.Must(err)
-	first, last := hexF(rc.First), hexF(rc.Keys[len(rc.Keys)-1])
-	p2 := trie2.NewProofNodeSet()
-	hx.Must(b.t2.GetRangeProof(&first, &last, p2))
-	p1 := trie.NewProofNodeSet()
-	hx.Must(b.t1.GetRangeProof(&first, &last, p1))
-	g2 := rangeVerify2(b.root, first, rc.Keys, rc.Values, p2)
-	g1 := rangeVerify1(b.root, first, rc.Keys, rc.Values, p1)
-	if verbose {
-		fmt.Printf("replay: range %v (altered: %q): trie2.VerifyRangeProof %s, trie.VerifyRangeProof %s\n", rc.Keys, rc.Tamper, g2, g1)
-	}
-	if rc.Tamper != "" {
-		if strings.HasPrefix(g2, "ok") {
-			c.Violation("trie2:range-forged:"+rc.Tamper, "replayed: "+g2, rc, false)
-		}
-		if strings.HasPrefix(g1, "ok") {
-			c.Violation("legacy:range-forged:"+rc.Tamper, "replayed: "+g1, rc, false)
-		}
-		return
-	}
-	// honest range: expected flag from the trie content
-	content := map[string]bool{}
-	for _, o := range rc.Trie.Ops {
-		f := strings.Split(o, ":")
-		if f[1] == "0" {
-			delete(content, f[0])
-		} else {
-			content[f[0]] = true
-		}
-	}
-	more := false
-	lb := hexFbig(rc.Keys[len(rc.Keys)-1])
-	for k := range content {
-		if hexFbig(k).Cmp(lb) > 0 {
-			more = true
-		}
-	}
-	want := fmt.Sprintf("ok more=%v", more)
-	for _, ig := range [][2]string{{"trie2", g2}, {"legacy", g1}} {
-		impl, g := ig[0], ig[1]
-		if g != want {
-			cl := impl + ":honest-range-proof-not-verified"
-			if strings.HasPrefix(g, "ok") {
-				cl = impl + ":honest-range-proof-wrong-more-flag"
-			}
-			if strings.HasPrefix(g, "panic") {
-				cl = impl + ":honest-range-proof-panics"
-			}
-			c.Violation(cl, "replayed: "+g+" want "+want, rc, false)
-		}
-	}
-}
-
-// corpus: minimised failures of earlier runs, run first on every invocation (testdata/*.json hold
-// the same cases as replay files)
-func corpus(c *hx.Ctx) {
-	k250 := "4" + strings.Repeat("0", 62)
-	k250p1 := "4" + strings.Repeat("0", 61) + "1"
-	mk := func(ops []string, keys, vals []string, tamper string) rangeCase {
-		return rangeCase{Trie: trieCase{Hash: "ped", Height: 251, Ops: ops}, First: keys[0], Keys: keys, Values: vals, Tamper: tamper}
-	}
-	for _, rc := range []rangeCase{
-		mk([]string{"1:a", "5:b", "9:c"}, []string{"1", "9"}, []string{"a", "c"}, "inner-element-omitted"),
-		mk([]string{"1:a", k250 + ":b", k250p1 + ":c"}, []string{"1", k250}, []string{"a", "b"}, ""),
-		// two boundary paths with IDENTICAL sub-nodes (same path suffix, same value => same node hash)
-		mk([]string{"1:5", k250p1 + ":5"}, []string{"1", k250p1}, []string{"5", "5"}, ""),
-	} {
-		c.Evaluations++
-		c.Hist["corpus:range"]++
-		replayRange(c, rc, false)
-	}
-}
-
 var _ = crypto.Pedersen
 
 func report(c *hx.Ctx, vs []verdict, tc trieCase) {
@@ -370,6 +140,10 @@ func report(c *hx.Ctx, vs []verdict, tc trieCase) {
 }
 
 func main() {
+	if os.Getenv("C10_CHILD") == "1" {
+		childMain()
+		return
+	}
 	c := hx.NewCtx("C10")
 	or := hx.StartOracle(c.OraclePath)
 	defer or.Close()
@@ -382,10 +156,10 @@ func main() {
 		c.Finish("replay")
 	}
 
-	corpus(c)
-	nTries, nSynth, nRange := 150, 1200, 120
+	corpus(c, or)
+	nTries, nSynth, nRange := 150, 1200, 25
 	if c.Thorough() {
-		nTries, nSynth, nRange = 2500, 30000, 3000
+		nTries, nSynth, nRange = 2500, 30000, 800
 	}
 	// small heights: Prove correspondence + model verifiers; height 251: everything
 	for i := 0; i < nTries; i++ {
@@ -409,7 +183,7 @@ func main() {
 	for i := 0; i < nRange; i++ {
 		tc := genTrieCase(r, []int{251})
 		tc.Hash = "ped"
-		evalRange(c, r, tc)
+		evalRanges(c, or, r, tc)
 	}
 	cachedHashProbe(c, r)
 	runRPC(c, r.Fork(0x10))
